@@ -422,13 +422,17 @@ def r13i(ck, fb):
     if not b:
         return
     adds = util.mut_calls_on_field(b, 'unhealthy_timeout_set', r'::add$')
-    ins = util.mut_calls_on_field(b, 'instances', r'HashMap::<K, V, S, A>::insert$')
-    ck.floor('R13i', 'instances.insert in update_instance_healthy_invalid', len(ins), 1)
-    for s0 in ins:
-        ok = any(cfg.dominates_blocks(b, {a.bb}, s0.bb) or cfg.must_pass_before_return(b, s0.bb, {a.bb}) for a in adds)
-        ck.require(ok, 'R13i', 'healthy_invalid:stays-implies-queued', s0.where(),
-                   'an instance is put back into the map without having been queued in unhealthy_timeout_set: the already-unhealthy instance whose '
-                   'health entry just fired is never removed (e.g. the unhealthy instance of a dead owner after take-over)')
+    look = util.mut_calls_on_field(b, 'instances', r'HashMap::<K, V, S, A>::(get|get_mut|remove|remove_entry|get_key_value)$')
+    ck.floor('R13i', 'lookups of the instance in update_instance_healthy_invalid', len(look), 1)
+    absent = util.option_edges(b, look, 'None')
+    ck.floor('R13i', 'not-found edges of the lookup', len(absent), 1)
+    # a way from the entry to the return that neither finds the instance missing nor queues it
+    free = cfg.reach_from(b, [0], blocked_blocks={a.bb for a in adds}, blocked_edges=set(absent))
+    leak = [r for r in b.return_blocks() if r in free]
+    ck.require(not leak, 'R13i', 'healthy_invalid:stays-implies-queued', b.where(leak[0]) if leak else b.where(),
+               'the function can return for an instance that is in the map without having queued it in unhealthy_timeout_set: the already-unhealthy '
+               'instance whose health entry just fired is never removed (e.g. the unhealthy instance of a dead owner after take-over)',
+               '%d queue sites, every found-path passes one' % len(adds))
 
 
 def r13j(ck, fb):
